@@ -599,6 +599,83 @@ fn label(r: &Reply) -> String {
     s.chars().take(48).collect::<String>().replace('"', "").replace(' ', "")
 }
 
+/// The systematic family of engine P: every listed event in every listed state of a tower, next to a second tower
+/// that is honest and up all the time (the two share appointment data in the store), followed by the tower coming
+/// back honest, the documented user action where one is needed, one more revocation, and a restart. The
+/// hand-written scenarios are the situations somebody thought of; this crossing is there for the others. All the
+/// general oracles apply at every step (store invariant, liveness, delivery, nothing to a misbehaving tower, flooding).
+fn p_family() -> Vec<Scenario> {
+    let add = "/add_appointment".to_owned();
+    let reg = "/register".to_owned();
+    let fast = RetryOpts { max_retry_time: 2, auto_retry_delay: 3, max_retry_interval: 1 };
+    let slow = RetryOpts { max_retry_time: 8, auto_retry_delay: 3, max_retry_interval: 1 };
+    let start = || vec![Step::Register(0), Step::Register(1), Step::Revoke(1), Step::Settle];
+    let states: Vec<(&str, RetryOpts, Vec<Step>)> = vec![
+        ("reachable", fast, vec![]),
+        ("being-retried", slow, vec![Step::Down(0), Step::Revoke(2), Step::Sleep(1500)]),
+        ("unreachable", fast, vec![Step::Down(0), Step::Revoke(2), Step::WaitStatus(0, "unreachable".into())]),
+        (
+            "subscription-error",
+            fast,
+            vec![Step::Default(0, reg.clone(), Reply::WrongKey), Step::Default(0, add.clone(), Reply::SubscriptionError), Step::Revoke(2), Step::WaitStatus(0, "subscription_error".into())],
+        ),
+        ("misbehaving", fast, vec![Step::Script(0, add.clone(), vec![Reply::WrongKey]), Step::Revoke(2), Step::Settle]),
+    ];
+    let honest = || vec![Step::Default(0, reg.clone(), Reply::Accept), Step::Default(0, add.clone(), Reply::Accept), Step::Up(0)];
+    let events: Vec<(&str, Vec<Step>)> = vec![
+        ("new-revocation", vec![Step::Revoke(3)]),
+        ("first-revocation-again", vec![Step::Revoke(1)]),
+        ("second-revocation-again", vec![Step::Revoke(2)]),
+        ("abandoned-and-registered-again", {
+            let mut v = vec![Step::Abandon(0)];
+            v.extend(honest());
+            v.push(Step::Register(0));
+            v
+        }),
+        ("renewed-by-the-user", {
+            let mut v = honest();
+            v.push(Step::Register(0));
+            v
+        }),
+        ("manual-retry", vec![Step::Retry(0)]),
+        ("restart", vec![Step::Restart, Step::Settle]),
+        ("user-query", vec![Step::Query(0, "getsubscriptioninfo".into())]),
+        ("other-tower-abandoned", vec![Step::Abandon(1)]),
+    ];
+    let mut v = Vec::new();
+    for (sname, opts, reach) in states.iter() {
+        for (ename, ev) in events.iter() {
+            // (a tower that is registered anew after having been abandoned is a new tower: what the old one was proven
+            // of does not bind it, and the end-of-scenario oracle cannot tell the two apart)
+            if *sname == "misbehaving" && *ename == "abandoned-and-registered-again" {
+                continue;
+            }
+            let mut steps = start();
+            steps.extend(reach.iter().cloned());
+            steps.extend(ev.iter().cloned());
+            steps.extend(honest());
+            let fresh = *ename == "abandoned-and-registered-again";
+            if *sname == "subscription-error" && !fresh {
+                // the documented way out: register again by hand (unless just done), then ask for a retry
+                if *ename != "renewed-by-the-user" {
+                    steps.push(Step::Register(0));
+                }
+                steps.push(Step::Settle);
+                steps.push(Step::Retry(0));
+            }
+            if *sname != "misbehaving" {
+                steps.push(Step::WaitDelivered(0));
+            }
+            steps.extend(vec![Step::Revoke(4), Step::Settle, Step::Restart, Step::Settle, Step::Revoke(5), Step::Settle]);
+            if *sname != "misbehaving" {
+                steps.push(Step::WaitDelivered(0));
+            }
+            v.push(Scenario { name: format!("family:{sname}:{ename}"), towers: 2, opts: *opts, steps });
+        }
+    }
+    v
+}
+
 fn c14_scenarios(tier: Tier) -> Vec<Scenario> {
     let mut v = Vec::new();
     let add = "/add_appointment".to_owned();
@@ -1404,8 +1481,13 @@ pub fn replay(v: &Value) -> i32 {
     (!t.viols.is_empty()) as i32
 }
 
-fn run_p(prop: &'static str, tier: Tier, scenarios: Vec<Scenario>, rule: &str) -> i32 {
+fn run_p(prop: &'static str, tier: Tier, mut scenarios: Vec<Scenario>, rule: &str) -> i32 {
     let run = Run::new(prop, "fault_enumeration", tier);
+    // debugging aid: only the scenarios whose name contains the given text (the evidence then says so)
+    if let Ok(o) = std::env::var("VERIF_ONLY_SCENARIO") {
+        scenarios.retain(|s| s.name.contains(o.as_str()));
+        run.set("restricted_to_scenarios_containing", json!(o));
+    }
     if !client_binary().exists() {
         eprintln!("MACHINERY-ERROR: {} is missing (run ./check, which builds it)", client_binary().display());
         return 2;
@@ -1468,13 +1550,13 @@ fn run_p(prop: &'static str, tier: Tier, scenarios: Vec<Scenario>, rule: &str) -
 }
 
 pub fn c14(tier: Tier) -> i32 {
-    run_p("C14", tier, c14_scenarios(tier), "every listed reply to add_appointment (valid, signature of another key, undecodable signature strings, every field dropped / retyped / out of range, non-JSON, wrong-shape JSON, 5xx HTML, empty, 1 MiB, hang-up, error objects with documented and unknown codes) on the notification path and on the retry path, and every listed reply to register as first registration and as renewal; after each: process alive, answers listtowers within 2 s, hook answered, registration recorded only on a verifying receipt that extends the subscription, wrong-key acknowledgement => misbehaving + no further request. distinct = distinct (store shape, event outcomes)")
+    run_p("C14", tier, { let mut v = c14_scenarios(tier); v.extend(p_family()); v }, "every listed reply to add_appointment (valid, signature of another key, undecodable signature strings, every field dropped / retyped / out of range, non-JSON, wrong-shape JSON, 5xx HTML, empty, 1 MiB, hang-up, error objects with documented and unknown codes) on the notification path and on the retry path, and every listed reply to register as first registration and as renewal; after each: process alive, answers listtowers within 2 s, hook answered, registration recorded only on a verifying receipt that extends the subscription, wrong-key acknowledgement => misbehaving + no further request. distinct = distinct (store shape, event outcomes)")
 }
 
 pub fn c05(tier: Tier) -> i32 {
-    run_p("C05", tier, c05_scenarios(tier), "every sequence of reply kinds up to length 2 (quick) / 3 (thorough) over {accept, subscription error, rejection, non-JSON, wrong shape, 5xx page, empty, hang-up, empty / short malformed signature, signature of another key} on the notification path, up to length 2 on the retry path, duplicate notifications in four client states, two towers with one failing, a duplicate notification while the acknowledging tower is down and the other one holds the commitment as pending / invalid, revocations while the retrier runs / while the tower is unreachable, SIGKILL + restart after every scenario, and an abort (crash point H1, VERIF_CRASH_AT) at each of the first n durable writes of three flows; oracle at every quiescent point, read from the client's sqlite file: every notified commitment x every live tower is recorded as exactly one of receipt / pending+data / invalid+data (at a kill: at least one)")
+    run_p("C05", tier, { let mut v = c05_scenarios(tier); v.extend(p_family()); v }, "every sequence of reply kinds up to length 2 (quick) / 3 (thorough) over {accept, subscription error, rejection, non-JSON, wrong shape, 5xx page, empty, hang-up, empty / short malformed signature, signature of another key} on the notification path, up to length 2 on the retry path, duplicate notifications in four client states, two towers with one failing, a duplicate notification while the acknowledging tower is down and the other one holds the commitment as pending / invalid, revocations while the retrier runs / while the tower is unreachable, SIGKILL + restart after every scenario, and an abort (crash point H1, VERIF_CRASH_AT) at each of the first n durable writes of three flows; oracle at every quiescent point, read from the client's sqlite file: every notified commitment x every live tower is recorded as exactly one of receipt / pending+data / invalid+data (at a kill: at least one)")
 }
 
 pub fn c13(tier: Tier) -> i32 {
-    run_p("C13", tier, c13_scenarios(tier), "tower status x retrier state x event scripts: recovery while the retrier runs, after it gave up (auto and manual retry), subscription error on both paths with renewal, bursts, restart with pending data, rejection and garbage on the retry path, a new revocation in each retrier state, manual retries in every status; oracle: everything pending is delivered within max-retry + auto-retry + 4 s of the tower being up and the tower is shown reachable, no two overlapping retry requests, the same appointment never sent more than 5 times per second, giving up => unreachable with data retained across restart, retrytower accepted exactly for unreachable / subscription error")
+    run_p("C13", tier, { let mut v = c13_scenarios(tier); v.extend(p_family()); v }, "tower status x retrier state x event scripts: recovery while the retrier runs, after it gave up (auto and manual retry), subscription error on both paths with renewal, bursts, restart with pending data, rejection and garbage on the retry path, a new revocation in each retrier state, manual retries in every status; oracle: everything pending is delivered within max-retry + auto-retry + 4 s of the tower being up and the tower is shown reachable, no two overlapping retry requests, the same appointment never sent more than 5 times per second, giving up => unreachable with data retained across restart, retrytower accepted exactly for unreachable / subscription error")
 }
